@@ -185,6 +185,7 @@ def serializeCdataGo : Nat → Str → Str
     else if c = '>' then
       if k = 2 then cdataSplit ++ serializeCdataGo 0 cs
       else List.replicate k ']' ++ ('>' :: serializeCdataGo 0 cs)
+    else if c = '\r' then List.replicate k ']' ++ (cdataCr ++ serializeCdataGo 0 cs)
     else List.replicate k ']' ++ (c :: serializeCdataGo 0 cs)
 
 /-- `serialize_cdata`. -/
@@ -215,8 +216,9 @@ def normalizeXmlId (s : Str) : Str := collapseSpaces false (trimSpaces s)
 
 /-! ### Reading CDATA sections back (specification side, XML 1.0 §2.7)
 
-`inSection` reads section content up to the first `]]>`; `afterSection` expects either the end
-of the text or another `<![CDATA[`.  The result is the concatenation of the section contents. -/
+`inSection` reads section content up to the first `]]>`; `afterSection` expects the end of the
+text, another `<![CDATA[`, or the character reference `&#xD;` (a carriage return cannot be
+written inside a section: it would be read back as a line feed).  The result is the concatenation of the section contents. -/
 
 mutual
 def inSection : Str → Option Str
@@ -226,6 +228,7 @@ def inSection : Str → Option Str
 def afterSection : Str → Option Str
   | [] => some []
   | '<' :: '!' :: '[' :: 'C' :: 'D' :: 'A' :: 'T' :: 'A' :: '[' :: rest => inSection rest
+  | '&' :: '#' :: 'x' :: 'D' :: ';' :: rest => (afterSection rest).map ('\r' :: ·)
   | _ => none
 end
 
